@@ -107,6 +107,9 @@ func (s *server) serve(method, target string, hdr http.Header, body []byte) (rec
 		return nil, "cannot build request: " + err.Error()
 	}
 	req.RequestURI = target
+	if body == nil {
+		req.Body = http.NoBody // a real server never hands out a nil Body
+	}
 	for k, vs := range hdr {
 		req.Header[k] = append([]string{}, vs...)
 	}
